@@ -10,6 +10,10 @@ OPT_NOTE = ("Trusted: Coq 8.16.1 kernel (vm_compute, no native_compute); extract
             "bit-identical parameter vectors at every State::score() call and return the same state).")
 
 ENGINES = [
+    {"name": "geom", "path": "harness/src/geom.rs + harness/src/geomgen.rs + ocaml/engine_geom.ml + bin/eng_geom.py + coq/model/Geom.v",
+     "serves_properties": ["C01", "C02", "C03", "C04", "C12", "C13", "C14", "C15"],
+     "kind_free_text": "correspondence of the extracted geometry model with the implementation on injected states and placed pairs; "
+                       "monitors with independent oracles (International Tables, separating-axis separation, lattice sums)"},
     {"name": "parse", "path": "harness/src/parse.rs + ocaml/engine_parse.ml + bin/eng_parse.py + coq/model/Parse.v",
      "serves_properties": ["C17"],
      "kind_free_text": "bit-exact correspondence of the extracted parser model with Transform2::from_operations on grammar and "
@@ -28,7 +32,31 @@ NOTES = ("Every claimed check = (1) proof gate: full coqc build of coq/props/<id
          "Assumptions allowlist, forbidden-token scan; (2) correspondence of the executable model with /repo's "
          "current working tree; (3) direct monitors that search for a concrete failing input.  See DESIGN.md.")
 
+GEOM_NOTE = ("Trusted: Coq kernel; extraction + float64 shim; harness/driver transport.  coq/model/Geom.v is hand-written "
+             "(nalgebra's 3x3 product, Transform*Point with its normaliser branch, serde layout are MODELLED) and tied to the code "
+             "on every run: its binary64 instance is compared with the implementation's placements, images, areas and scores "
+             "(bit-exact up to signed zeros, else within 1e-12) on states injected through the public Deserialize.  Theorems are "
+             "over the reals for the same program text; floating-point rounding in the geometry layer is not reasoned about.  "
+             "cos/sin of the angles are values supplied by libm (premises).")
+
 CLAIMS = {
+    "C14": dict(
+        engine="geom", design_ref="DESIGN.md section 4 C14",
+        technique="Coq proofs over the reals (ring/field, induction over the index ranges) + bit-exact model/impl comparison",
+        text="Theorems (all cells, placements and shell counts k >= 0): the Cartesian map is linear with A=(a,0), B=(b cos, b sin); "
+             "periodic_images is, in the order of the nested loops, the placement translated by n A + m B for exactly the index "
+             "pairs |n|,|m| <= k (the pair (0,0) kept iff asked), without repetition, (2k+1)^2 - [not zero] of them, linear "
+             "part unchanged; the cell area is |A x B|.",
+        note=GEOM_NOTE),
+    "C15": dict(
+        engine="geom", design_ref="DESIGN.md section 4 C15",
+        technique="Coq proofs over the reals (truncated remainder, uniqueness modulo 1) + bit-exact model/impl comparison incl. bound-clamped sites",
+        text="Theorems (reals): wrap(x) is in [-1/2,1/2), differs from x by an integer and is the unique such number, so "
+             "coordinates that differ by integers wrap identically; positions() has one placement per operation, placement k "
+             "= (L_k R, wrap(L_k p + t_k)); a site moved by lattice vectors, or rotated by 2 pi, gives identical placements.  The "
+             "binary64 wrap is exercised bit-for-bit on the edge set (x,y = +-1/2, +-(1/2 - 2^-54), denormals, -0.0).",
+        note=GEOM_NOTE + "  The half-open bound for binary64 rounding itself (wrap of values within an ulp of 1/2) is checked by "
+             "the monitor on every generated case, not proved."),
     "C17": dict(
         engine="parse", design_ref="DESIGN.md section 4 C17",
         technique="Coq proof by induction over grammar derivations (strings of every length) + bit-exact model/impl comparison on strings",
@@ -99,4 +127,4 @@ CLAIMS = {
 
 _NOT_YET = "not claimed yet: the model/theorems/engine for this property are still being built (see DESIGN.md section 7)"
 NOT_APPLICABLE = {p: _NOT_YET for p in
-                  ["C01", "C02", "C03", "C04", "C08", "C09", "C10", "C11", "C12", "C13", "C14", "C15"]}
+                  ["C01", "C02", "C03", "C04", "C08", "C09", "C10", "C11", "C12", "C13"]}
